@@ -903,6 +903,8 @@ def gen_api_program(rng, i):
 
 
 def oracle_api_program(evs, meta, out):
+    if " CRASH status=" in out:
+        return "the process running the scenario died (%s)" % out[out.index(" CRASH status="):][:40].strip()
     if " LEAK" in out:
         return "memory still allocated (LeakSanitizer) after the last reference was dropped and the main context drained"
     if " SPIN " in out:
